@@ -244,6 +244,39 @@ pub proof fn lemma_step_pre(data0: Seq<DatumId>, rm: Seq<DatumId>, add: Seq<Datu
     assert(defs0[id.0 as int].details.type_info == defs[id.0 as int].details.type_info);
 }
 
+pub proof fn lemma_frame_step(add: Seq<DatumId>, pos: int, defs0: Defs, defs_b: Defs, defs_a: Defs)
+    requires
+        0 <= pos < add.len(),
+        same_except(defs0, defs_b, add.take(pos)),
+        same_except(defs_b, defs_a, seq![add[pos]]),
+    ensures
+        same_except(defs0, defs_a, add.take(pos + 1)),
+{
+    let id = add[pos];
+    let t0 = add.take(pos);
+    let t1 = add.take(pos + 1);
+    assert(t1 == t0.push(id));
+    assert forall|k: int| 0 <= k < defs0.len() && !has_id(t1, k) implies (#[trigger] defs0[k]).details.offset == defs_a[k].details.offset by {
+        if has_id(t0, k) {
+            let i = choose|i: int| 0 <= i < t0.len() && (#[trigger] t0[i]).0 == k;
+            assert(t1[i].0 == k);
+        }
+        if has_id(seq![id], k) {
+            assert(id.0 == k);
+            assert(t1[pos].0 == k);
+        }
+        assert(defs0[k].details.offset == defs_b[k].details.offset);
+        assert(defs_b[k].details.offset == defs_a[k].details.offset);
+    }
+    assert forall|k: int| 0 <= k < defs0.len() implies
+            (#[trigger] defs0[k]).id == defs_a[k].id && defs0[k].name == defs_a[k].name
+            && defs0[k].details.type_info == defs_a[k].details.type_info
+            && defs0[k].details.allow_uninit == defs_a[k].details.allow_uninit by {
+        assert(defs0[k].id == defs_b[k].id);
+        assert(defs_b[k].id == defs_a[k].id);
+    }
+}
+
 /// composing the frame after one push
 pub proof fn lemma_step_post(f: Seq<DatumId>, add: Seq<DatumId>, pos: int, data_b: Seq<DatumId>, data_a: Seq<DatumId>, defs0: Defs, defs_b: Defs, defs_a: Defs, newoff: int)
     requires
@@ -668,6 +701,205 @@ pub proof fn lemma_members_reverse(out: Seq<DatumId>, f: Seq<DatumId>, add: Seq<
         lemma_add_ok_reverse(data_to_add@, data0, defs0);
         lemma_same_except_reverse(defs0, datum_definitions.data@, data_to_add@);
         lemma_members_reverse(data@, f, data_to_add@);
+    }
+//@end
+
+// ---------------------------------------------------------------------------------------------
+// L6 basic
+
+/// caret invariant of `basic`: everything before `dc` ends at or before `bc`, everything from `dc`
+/// on starts at or after `lo`
+pub open spec fn caret_ok(data: Seq<DatumId>, defs: Defs, dc: int, bc: int, lo: int) -> bool {
+    &&& 0 <= dc <= data.len()
+    &&& forall|k: int| 0 <= k < dc ==> dend(defs, #[trigger] data[k]) <= bc
+    &&& forall|k: int| dc <= k < data.len() ==> off(defs, #[trigger] data[k]) >= lo
+}
+
+pub proof fn lemma_members_step(out_b: Seq<DatumId>, out_a: Seq<DatumId>, f: Seq<DatumId>, add: Seq<DatumId>, pos: int, dc: int)
+    requires
+        0 <= pos < add.len(),
+        0 <= dc <= out_b.len(),
+        members_are(out_b, f, add.take(pos)),
+        out_a == out_b.insert(dc, add[pos]),
+    ensures
+        members_are(out_a, f, add.take(pos + 1)),
+{
+    let id = add[pos];
+    let t0 = add.take(pos);
+    let t1 = add.take(pos + 1);
+    assert(t1 == t0.push(id));
+    assert forall|x: DatumId| out_a.contains(x) <==> f.contains(x) || t1.contains(x) by {
+        if out_a.contains(x) {
+            let i = choose|i: int| 0 <= i < out_a.len() && out_a[i] == x;
+            if i < dc { assert(out_b[i] == x); } else if i == dc { assert(t1[pos] == x); } else { assert(out_b[i - 1] == x); }
+            if out_b.contains(x) && t0.contains(x) {
+                let j = choose|j: int| 0 <= j < t0.len() && t0[j] == x;
+                assert(t1[j] == x);
+            }
+        }
+        if out_b.contains(x) {
+            let i = choose|i: int| 0 <= i < out_b.len() && out_b[i] == x;
+            if i < dc { assert(out_a[i] == x); } else { assert(out_a[i + 1] == x); }
+        }
+        if t1.contains(x) {
+            let j = choose|j: int| 0 <= j < t1.len() && t1[j] == x;
+            if j < pos { assert(t0[j] == x); assert(t0.contains(x)); } else { assert(out_a[dc] == x); }
+        }
+    }
+}
+
+pub proof fn lemma_not_member(data0: Seq<DatumId>, rm: Seq<DatumId>, add: Seq<DatumId>, pos: int, data: Seq<DatumId>, defs0: Defs, defs: Defs)
+    requires
+        add_ok(add, data0, defs0),
+        0 <= pos < add.len(),
+        members_are(data, filtered(data0, rm), add.take(pos)),
+        same_except(defs0, defs, add.take(pos)),
+    ensures
+        add[pos].0 < defs.len(),
+        !data.contains(add[pos]),
+        alg(defs, add[pos]) > 0,
+        sz(defs, add[pos]) + alg(defs, add[pos]) <= S,
+{
+    lemma_filtered_members(data0, rm);
+    let f = filtered(data0, rm);
+    let id = add[pos];
+    if f.contains(id) {
+        assert(data0.contains(id));
+        let j = choose|j: int| 0 <= j < data0.len() && data0[j] == id;
+        assert(add[pos] != data0[j]);
+    }
+    if add.take(pos).contains(id) {
+        let i = choose|i: int| 0 <= i < pos && add.take(pos)[i] == id;
+        assert(add[i] == id);
+    }
+    assert(defs0[id.0 as int].details.type_info == defs[id.0 as int].details.type_info);
+}
+
+pub proof fn lemma_insert_wf(data: Seq<DatumId>, defs_b: Defs, defs_a: Defs, dc: int, id: DatumId, bc: int, bound: int)
+    requires
+        wf(data, defs_b),
+        !data.contains(id),
+        id.0 < defs_b.len(),
+        same_except(defs_b, defs_a, seq![id]),
+        off(defs_a, id) == bc,
+        alg(defs_b, id) > 0,
+        bc % alg(defs_b, id) == 0,
+        caret_ok(data, defs_b, dc, bc, bc + sz(defs_b, id)),
+        bounded(data, defs_b, bound),
+        bc + sz(defs_b, id) <= bound,
+    ensures
+        wf(data.insert(dc, id), defs_a),
+        caret_ok(data.insert(dc, id), defs_a, dc, bc, bc),
+        bounded(data.insert(dc, id), defs_a, bound),
+{
+    let out = data.insert(dc, id);
+    assert(seq![id][0] == id);
+    assert forall|i: int| 0 <= i < data.len() implies
+        (#[trigger] data[i]).0 < defs_a.len() && data[i] != id
+        && off(defs_a, data[i]) == off(defs_b, data[i]) && sz(defs_a, data[i]) == sz(defs_b, data[i])
+        && alg(defs_a, data[i]) == alg(defs_b, data[i]) by {
+        let d = data[i];
+        if d == id { assert(data.contains(id)); }
+        assert(!has_id(seq![id], d.0 as int));
+        assert(defs_b[d.0 as int].details.offset == defs_a[d.0 as int].details.offset);
+        assert(defs_b[d.0 as int].details.type_info == defs_a[d.0 as int].details.type_info);
+    }
+    assert(defs_b[id.0 as int].details.type_info == defs_a[id.0 as int].details.type_info);
+    assert forall|i: int| 0 <= i < out.len() implies
+        (#[trigger] out[i]).0 < defs_a.len() && alg(defs_a, out[i]) > 0
+        && off(defs_a, out[i]) % alg(defs_a, out[i]) == 0 && dend(defs_a, out[i]) <= bound by {
+        if i < dc { assert(out[i] == data[i]); } else if i > dc { assert(out[i] == data[i - 1]); }
+    }
+    assert forall|i: int, j: int| #![trigger out[i], out[j]] 0 <= i < j < out.len() implies
+        out[i] != out[j] && dend(defs_a, out[i]) <= off(defs_a, out[j]) by {
+        if i < dc { assert(out[i] == data[i]); } else if i > dc { assert(out[i] == data[i - 1]); }
+        if j < dc { assert(out[j] == data[j]); } else if j > dc { assert(out[j] == data[j - 1]); }
+    }
+    assert forall|k: int| 0 <= k < dc implies dend(defs_a, #[trigger] out[k]) <= bc by { assert(out[k] == data[k]); }
+    assert forall|k: int| dc <= k < out.len() implies off(defs_a, #[trigger] out[k]) >= bc by {
+        if k > dc { assert(out[k] == data[k - 1]); }
+    }
+}
+
+//@fn truc/src/record/definition/builder/native/variant/basic.rs :: fn basic
+//@ ret r
+//@ requires
+        strategy_pre(data@, data_to_add@, data_to_remove@, old(datum_definitions).data@)
+//@ ensures
+        strategy_post(r@, data@, data_to_add@, data_to_remove@, old(datum_definitions).data@, final(datum_definitions).data@)
+//@ hint fn.start
+    let ghost data0 = data@;
+    let ghost defs0 = datum_definitions.data@;
+//@ hint before for#1
+    let ghost f = filtered(data0, data_to_remove@);
+    proof {
+        lemma_filtered_wf(data0, data_to_remove@, defs0, B as int);
+        assert(data_to_add@.take(0).len() == 0);
+        assert(forall|x: DatumId| !data_to_add@.take(0).contains(x));
+    }
+//@ loop 1 iter=it
+        invariant
+            add_ok(data_to_add@, data0, defs0),
+            f == filtered(data0, data_to_remove@),
+            wf(data@, datum_definitions.data@),
+            members_are(data@, f, data_to_add@.take(it.index@)),
+            same_except(defs0, datum_definitions.data@, data_to_add@.take(it.index@)),
+            bounded(data@, datum_definitions.data@, B + it.index@ * S),
+            caret_ok(data@, datum_definitions.data@, data_caret as int, byte_caret as int, byte_caret as int),
+            byte_caret <= B + it.index@ * S,
+//@ hint loop1.start
+        let ghost pos = it.index@;
+        let ghost defs_b = datum_definitions.data@;
+        proof {
+            assert(datum_id == data_to_add@[pos]);
+            lemma_not_member(data0, data_to_remove@, data_to_add@, pos, data@, defs0, defs_b);
+            assert(pos * S <= N * S) by (nonlinear_arith) requires 0 <= pos <= N;
+        }
+//@ hint before while#1
+        let ghost a = datum.details.type_info.align as int;
+        let ghost s = datum.details.type_info.size as int;
+//@ loop 2
+            invariant
+                a == datum.details.type_info.align, s == datum.details.type_info.size, a > 0, s + a <= S,
+                0 <= pos < N, pos * S <= N * S,
+                wf(data@, datum_definitions.data@),
+                bounded(data@, datum_definitions.data@, B + pos * S),
+                caret_ok(data@, datum_definitions.data@, data_caret as int, byte_caret as int, byte_caret as int),
+                byte_caret <= B + pos * S,
+            ensures
+                caret_ok(data@, datum_definitions.data@, data_caret as int, byte_caret as int, al(byte_caret as int, a) + s),
+                byte_caret <= B + pos * S,
+            decreases data@.len() - data_caret
+//@ hint loop2.start
+            proof {
+                let defs = datum_definitions.data@;
+                let dc = data_caret as int;
+                assert(dend(defs, data@[dc]) <= B + pos * S);
+                assert(forall|k: int| dc < k < data@.len() ==> dend(defs, data@[dc]) <= off(defs, #[trigger] data@[k]));
+                assert(forall|k: int| 0 <= k < dc ==> dend(defs, #[trigger] data@[k]) <= off(defs, data@[dc]));
+                lemma_al(byte_caret as int, a);
+            }
+//@ hint before break#1
+                    proof { lemma_al(bc as int, a); }
+//@ hint before insert#1
+        let ghost data_b = data@;
+        let ghost bc0 = byte_caret as int;
+        proof { lemma_al(bc0, a); }
+//@ hint loop1.end
+        proof {
+            let defs_a = datum_definitions.data@;
+            assert(forall|k: int| 0 <= k < defs_a.len() && k != datum_id.0 ==> defs_a[k] == defs_b[k]);
+            assert(seq![datum_id][0] == datum_id);
+            assert(forall|k: int| 0 <= k < defs_a.len() && k != datum_id.0 ==> !has_id(seq![datum_id], k));
+            assert((pos + 1) * S == pos * S + S) by (nonlinear_arith);
+            lemma_insert_wf(data_b, defs_b, defs_a, data_caret as int, datum_id, byte_caret as int, B + (pos + 1) * S);
+            lemma_members_step(data_b, data@, f, data_to_add@, pos, data_caret as int);
+            lemma_frame_step(data_to_add@, pos, defs0, defs_b, defs_a);
+        }
+//@ hint fn.end
+    proof {
+        assert(data_to_add@.take(data_to_add@.len() as int) == data_to_add@);
+        assert(data_to_add@.len() * S <= N * S) by (nonlinear_arith) requires data_to_add@.len() <= N;
     }
 //@end
 
